@@ -94,9 +94,7 @@ class ElectronicControlUnit:
         :param callback:
             The callback to be removed from the timer event list
         """
-        for event in self._timer_events:
-            if event['callback'] == callback:
-                self._timer_events.remove( event )
+        self._timer_events[:] = [event for event in self._timer_events if event['callback'] != callback]
         self._job_thread_wakeup()
 
     def connect(self, *args, **kwargs):
@@ -150,9 +148,7 @@ class ElectronicControlUnit:
         :param callback:
             Function to call when message is received.
         """
-        for dic in self._subscribers:
-            if dic['cb'] == callback:
-                self._subscribers.remove(dic)
+        self._subscribers[:] = [dic for dic in self._subscribers if dic['cb'] != callback]
 
 
     def add_ca(self, **kwargs):
